@@ -44,12 +44,12 @@ Proof. exact c_rendering_is_pointer_form. Qed.
 Print Assumptions C09_c_rendering_is_pointer_form.
 
 (* ---- the whole-declaration round trip, for the fragment [in_fragment] /\ [text_fragment]:
-   built-in type words in any number or ONE unqualified name of a type in scope (typedef, class, struct, enum, template
-   parameter; not the enclosing class itself), const / volatile on the type, pointer / reference chains with qualifiers at every
+   built-in type words in any number or ONE name of a type in scope, possibly qualified ("ns::Cls", "std::string":
+   typedef, class, struct, enum, template parameter; not the enclosing class itself), const / volatile on the type, pointer / reference chains with qualifiers at every
    level, function-pointer declarators nested to any depth, parameter lists nested to any depth (each parameter again
    in the fragment), "(void)", a trailing const; no storage class, template argument, array suffix, attribute or
    default value, and the declared names are identifiers that are not type names in scope.
-   Outside the fragment (namespace-qualified names, templates, arrays, attributes) the round trip is evaluated by the harness on the
+   Outside the fragment (template arguments, array suffixes, attributes, storage classes, default values) the round trip is evaluated by the harness on the
    model and on the implementation for every generated declaration; the harness also counts how many of its cases
    fall inside the fragment (evidence: fragment:in / fragment:out). ---- *)
 
@@ -107,7 +107,9 @@ Proof. vm_compute. repeat split; reflexivity. Qed.
 Definition named_ctx : pctx :=
   {| cur_id := 1; cur_is_class := true; cur_name := cp "Cls";
      scope := [(cp "Cls", Sym 1 KScope (TmName (cp "Cls")) []); (cp "MyInt", Sym 2 KLeaf (TmName (cp "MyInt")) []);
-               (cp "Color", Sym 3 KLeaf (TmName (cp "Color")) [])];
+               (cp "Color", Sym 3 KLeaf (TmName (cp "Color")) []);
+               (cp "std", Sym 4 KScope TmMissing [(cp "string", Sym 5 KLeaf (TmName (cp "std::string")) [])]);
+               (cp "ns", Sym 6 KScope TmMissing [(cp "deep", Sym 7 KScope TmMissing [(cp "Leaf", Sym 8 KScope (TmName (cp "ns::deep::Leaf")) [])])])];
      known_types := [cp "int"; cp "void"; cp "double"] |}.
 Definition in_both_named (s : string) : bool :=
   match parse_statement named_ctx (cp s) with
@@ -115,7 +117,9 @@ Definition in_both_named (s : string) : bool :=
   | _ => false
   end.
 Example C09_fragment_named_types :
-  forallb in_both_named ["MyInt x"; "const Color * const * c"; "int f(MyInt a, Color & b, volatile MyInt * p)"; "Color (*pick)(MyInt n)"]%string = true
+  forallb in_both_named ["MyInt x"; "const Color * const * c"; "int f(MyInt a, Color & b, volatile MyInt * p)"; "Color (*pick)(MyInt n)";
+                         "const std::string & name"; "ns::deep::Leaf * make(std::string s, const ns::deep::Leaf & other)"]%string = true
+  /\ in_both_named "ns::deep x" = false      (* a namespace is not a type *)
   /\ in_both_named "Cls * self" = false      (* the enclosing class: "Cls (" would be a constructor *)
   /\ in_both_named "int MyInt" = false.      (* a declared name that is a type name *)
 Proof. vm_compute. repeat split; reflexivity. Qed.
